@@ -389,7 +389,10 @@ def run_machine(draws, state, tier):
     entry = pool[st.below(len(pool), "schema")]
     if entry.kind == "sdl":
         parts = list(entry.parts)
-        if "type Query {" in entry.sdl and st.chance(1, 2, "with_sub"):
+        plain_roots = ("type Query {" in entry.sdl
+                       and "type Subscription" not in entry.sdl
+                       and not any(p.startswith("schema") for p in parts))
+        if plain_roots and st.chance(1, 2, "with_sub"):
             parts.append("type Subscription {\n  tick(a_n: Int = 1): Int\n}")
         source = build_schema(join_sdl(parts))
     else:
